@@ -1380,7 +1380,9 @@ class Py2Cpp(ITranspiler):
 		return self.render(node, 'operation/unary_operator', vars={'operator': operator, 'value': value})
 
 	def on_not_compare(self, node: defs.NotCompare, operator: str, value: str) -> str:
-		return self.render(node, 'operation/unary_operator', vars={'operator': '!', 'value': value})
+		# XXX C++の`!`は2項演算子より優先度が高いため、Pythonの`not a == b`と同じ結合になるよう括弧で囲う
+		operand = f'({value})' if node.value.is_a(defs.BinaryOperator) else value
+		return self.render(node, 'operation/unary_operator', vars={'operator': '!', 'value': operand})
 
 	def on_or_compare(self, node: defs.OrCompare, elements: list[str]) -> str:
 		return self.proc_binary_operation(node, elements)
